@@ -21,7 +21,7 @@ import warnings
 import repo_shim  # noqa: F401
 
 from guppylang_internals.checker.core import Globals
-from guppylang_internals.engine import ENGINE
+from guppylang_internals.engine import DEF_STORE, ENGINE
 from guppylang_internals.error import GuppyError
 from guppylang_internals.tys import builtin as B
 from guppylang_internals.tys.arg import ConstArg, TypeArg
@@ -44,6 +44,12 @@ NUM = {"nat": NumericType.Kind.Nat, "int": NumericType.Kind.Int, "float": Numeri
 OPAQUE = {"bool": B.bool_type_def, "str": B.string_type_def, "array": B.array_type_def,
           "frozenarray": B.frozenarray_type_def, "Option": B.option_type_def}
 STRUCT = {n: ENGINE.get_checked(getattr(structs, n).id) for n in inp["struct_names"]}
+# structs declared in a function body / class body: read back in their declaring frame
+SCOPED_FRAME = {}
+for _n in inp.get("scoped_names", []):
+    _obj = structs.SCOPED[_n]
+    STRUCT[_n] = ENGINE.get_checked(_obj.id)
+    SCOPED_FRAME[_n] = DEF_STORE.frames[_obj.id]
 g = Globals(None)
 g.f_globals = dict(structs.__dict__)
 
@@ -153,8 +159,50 @@ def pytok(s):
         return None
 
 
-def read_back(s):
+def scope_of(t):
+    """Globals in which a printed type is read back: the declaring frame of the first nested-scope struct"""
+    if t[0] == "app":
+        if t[1] in SCOPED_FRAME:
+            return Globals(SCOPED_FRAME[t[1]])
+        for a in t[2]:
+            if (gg := scope_of(a)) is not None:
+                return gg
+    if t[0] == "tuple":
+        for a in t[1]:
+            if (gg := scope_of(a)) is not None:
+                return gg
+    return None
+
+
+def struct_defs(ty, out):
+    if isinstance(ty, TypeArg):
+        return struct_defs(ty.ty, out)
+    if isinstance(ty, (TupleType, OpaqueType, StructType)):
+        if isinstance(ty, StructType):
+            out.append(ty.defn)
+        for a in ty.args:
+            struct_defs(a, out)
+    return out
+
+
+def bad_struct_names(ty, gl):
+    """printed struct names that are not identifiers resolving in scope `gl` to the same struct"""
+    bad = []
+    for d in struct_defs(ty, []):
+        ok = isinstance(d.name, str) and d.name.isidentifier() and d.name in gl
+        if ok:
+            try:
+                ok = getattr(gl[d.name], "id", None) == d.id
+            except Exception:  # noqa: BLE001
+                ok = False
+        if not ok and d.name not in bad:
+            bad.append(d.name)
+    return bad
+
+
+def read_back(s, gl=None):
     """-> (pyexpr JSON | None, parsed type JSON | None, error class name | None)"""
+    gl = gl or g
     try:
         body = ast.parse(s).body
     except (SyntaxError, ValueError, MemoryError, RecursionError):
@@ -167,7 +215,7 @@ def read_back(s):
     except KeyError:
         pe = None
     try:
-        ty = type_from_ast(node, TypeParsingCtx(g))
+        ty = type_from_ast(node, TypeParsingCtx(gl))
     except GuppyError as e:
         return pe, None, type(e.error).__name__
     return pe, ty, None
@@ -180,13 +228,16 @@ for case in inp["cases"]:
         if kind == "rt":
             ty = mk(case[1])
             s = str(ty)
-            pe, back, err = read_back(s)
+            gl = scope_of(case[1]) or g
+            pe, back, err = read_back(s, gl)
             results.append({"str": s, "toks": lex(s), "pytok_agrees": pytok(s) == lex(s), "pyexpr": pe,
+                            "bad_struct_names": bad_struct_names(ty, gl),
                             "back": unmk(back) if back is not None else None, "same": back == ty if back is not None else False,
                             "err": err, "copyable": ty.copyable, "droppable": ty.droppable})
         elif kind == "toks":
             s = " ".join(case[1])
-            pe, back, err = read_back(s)
+            sc = [t for t in case[1] if t in SCOPED_FRAME]     # a mutated printed string mentions one scope only
+            pe, back, err = read_back(s, Globals(SCOPED_FRAME[sc[0]]) if sc else g)
             results.append({"str": s, "pyexpr": pe, "back": unmk(back) if back is not None else None, "err": err})
         elif kind == "fun":
             ty = mk(case[1])
